@@ -50,6 +50,7 @@ type Case struct {
 	BreakOnError bool       `json:"break_on_error"`
 	Cmds         []string   `json:"cmds"` // applied round robin to successive suspensions
 	Plan         sched.Plan `json:"plan"`
+	StopAll      int        `json:"stop_all,omitempty"` // > 0: that many sink threads are suspended at a breakpoint on several workers, then StopThreads must release every one of them
 }
 
 func TestMain(m *testing.M) { hx.Main(m, "C15", rule) }
@@ -147,6 +148,19 @@ func summarize(r *erun.Result) outcome {
 func source(c Case) string {
 	c.Prog.Number()
 	body := c.Prog.Src()
+	if c.StopAll > 0 {
+		var b strings.Builder
+		b.WriteString("sink s1\n    kindmatch [ \"a.b\" ]\n{\n    t.rec(\"in-sink\")\n")
+		for _, l := range strings.Split(strings.TrimRight(body, "\n"), "\n") {
+			b.WriteString("    " + l + "\n")
+		}
+		b.WriteString("}\n")
+		for i := 1; i < c.StopAll; i++ {
+			fmt.Fprintf(&b, "addEvent(\"e%d\", \"a.b\", {})\n", i)
+		}
+		b.WriteString("r := addEventAndWait(\"elast\", \"a.b\", {})\n")
+		return b.String()
+	}
 	if !c.Sink {
 		return body
 	}
@@ -167,6 +181,9 @@ type stop struct {
 }
 
 func runCase(c Case) (fail *hx.Failure) {
+	if c.StopAll > 0 {
+		return runStopAll(c)
+	}
 	src := source(c)
 	nlines := strings.Count(src, "\n")
 	if nlines == 0 {
@@ -492,6 +509,111 @@ func runCase(c Case) (fail *hx.Failure) {
 	return nil
 }
 
+// runStopAll: several sink threads suspended at one breakpoint, then
+// StopThreads: every suspended thread must leave its wait. The threads are
+// killed by design afterwards (Goexit), so nothing else is compared.
+func runStopAll(c Case) (fail *hx.Failure) {
+	src := source(c)
+	s := sched.Install(c.Plan)
+	defer s.Uninstall()
+	var mu sync.Mutex
+	resumed := map[uint64]int{}
+	s.Observer = func(point string, args []interface{}) {
+		if point == "debug.resumed" && len(args) > 0 {
+			if tid, ok := args[0].(uint64); ok {
+				mu.Lock()
+				resumed[tid]++
+				mu.Unlock()
+			}
+		}
+	}
+	var inner util.ECALDebugger
+	ready := make(chan struct{})
+	hx.WriteInflight(c) // a fatal runtime abort inside StopThreads cannot be recovered
+	var theErp *interpreter.ECALRuntimeProvider
+	defer func() {
+		if theErp != nil {
+			erun.Close(theErp) // the main thread of this program never returns (its sink threads are killed): stop recording for it
+		}
+	}()
+	go func() {
+		defer func() { recover() }()
+		erun.Run(src, erun.Options{Name: srcName, Workers: c.StopAll, Debugger: func(erp *interpreter.ECALRuntimeProvider, vs parser.Scope) util.ECALDebugger {
+			theErp = erp
+			inner = interpreter.NewECALDebugger(vs)
+			inner.BreakOnError(false)
+			inner.SetBreakPoint(srcName, 4) // first statement of the sink body
+			close(ready)
+			return inner
+		}})
+	}()
+	<-ready
+	// wait until all invocations are suspended
+	var susp []uint64
+	deadline := time.Now().Add(20 * time.Second)
+	for time.Now().Before(deadline) {
+		susp = susp[:0]
+		st, _ := inner.Status().(map[string]interface{})
+		threads, _ := st["threads"].(map[string]map[string]interface{})
+		for k, ts := range threads {
+			if running, has := ts["threadRunning"].(bool); has && !running {
+				tid, _ := strconv.ParseUint(k, 10, 64)
+				susp = append(susp, tid)
+			}
+		}
+		if len(susp) >= c.StopAll {
+			break
+		}
+		time.Sleep(200 * time.Microsecond)
+	}
+	if len(susp) < c.StopAll {
+		hx.ClearInflight()
+		hx.Inconclusive("c15.stopall-not-all-suspended")
+		return nil
+	}
+	time.Sleep(2 * time.Millisecond) // let them reach their waits (a thread still before its wait is the C15 lost-continue window, covered elsewhere)
+	mu.Lock()
+	before := map[uint64]int{}
+	for _, tid := range susp {
+		before[tid] = resumed[tid]
+	}
+	mu.Unlock()
+	var released bool
+	if f := hx.Guard(func() { released = inner.StopThreads(0) }); f != nil {
+		hx.ClearInflight()
+		return f
+	}
+	start := time.Now()
+	for {
+		left := 0
+		mu.Lock()
+		for _, tid := range susp {
+			if resumed[tid] > before[tid] {
+				left++
+			}
+		}
+		mu.Unlock()
+		if left == len(susp) {
+			break
+		}
+		if time.Since(start) > stuckBound && s.ActiveHolds() == 0 {
+			hx.ClearInflight()
+			if stuckBound > 3*time.Second {
+				stuckBound = 3 * time.Second
+			}
+			return hx.Failf("stopthreads-leaves-thread-suspended", "%d threads were suspended at the breakpoint; %v after StopThreads (returned %v) only %d of them have left their wait\n%s",
+				len(susp), time.Since(start).Round(time.Millisecond), released, left, src)
+		}
+		time.Sleep(100 * time.Microsecond)
+	}
+	time.Sleep(time.Millisecond) // the released threads delete their state and exit while we are still here
+	hx.ClearInflight()
+	key := fmt.Sprint("stopall", c.StopAll, src)
+	hx.E.Case(true, key, "stopall", fmt.Sprintf("stopall.threads.%d", len(susp)))
+	hx.E.Sample(key, map[string]interface{}{"src": src, "suspended_threads": len(susp), "stop_all": true})
+	return nil
+}
+
 func diff(a, b outcome) string {
 	var out []string
 	add := func(n, x, y string) {
@@ -554,7 +676,29 @@ func genCase(rt *rapid.T) Case {
 	case 2:
 		c.Plan = append(c.Plan, sched.Rule{Point: "debug.resumed", Nth: 0, Action: "sleep", N: 1 + pick(100, "sn")})
 	}
+	if pick(16, "stopall") == 0 {
+		c.StopAll = 2 + pick(3, "stopn")
+		c.Plan = nil
+	}
 	return c
+}
+
+// directed: StopThreads with 2-4 threads suspended on as many workers, repeated (the interesting schedule is sampled)
+func TestExhaustive(t *testing.T) {
+	reps := 40
+	if hx.Thorough() {
+		reps = 400
+	}
+	hx.Enumerate(t, "stopthreads", func(yield func(Case) bool) {
+		for i := 0; i < reps; i++ {
+			for n := 2; n <= 4; n++ {
+				p := &lang.Prog{Body: []*lang.S{lang.Assign(lang.Var("a"), lang.Num(fmt.Sprint(i))), lang.Rec(lang.Var("a")), lang.Mark("after")}}
+				if !yield(Case{Prog: p, StopAll: n}) {
+					return
+				}
+			}
+		}
+	}, runCase)
 }
 
 func TestProp(t *testing.T) { hx.Check(t, genCase, runCase) }
